@@ -13,6 +13,10 @@ version (`load_matchfile` / `load_match`), each case in a forked child of the wo
 
 Space `parse-pos`: the text of a line embedded in a longer string and parsed with the `pos` option of the
 class parsers (every class that has it) gives the same object as the text alone.
+
+Space `signed-times`: the line oracle (including to_v1) on every line that carries a performed note or a pedal
+time, with the full product of its time fields over a signed alphabet (times before the reference point of the
+performance are negative numbers).
 """
 import contextlib
 import copy
@@ -43,7 +47,8 @@ RULE = (
     "the characters that structure a line; every case is distinct by construction; non-trivial = the "
     "line was written and parsed back (all cases); a history case = a sequence of file loads followed by the "
     "line oracle on the lines of one version (non-trivial: always); a parse-pos case = one line x what stands before "
-    "and after it in the parsed string (non-trivial: always - either pos > 0 or text follows the line)"
+    "and after it in the parsed string (non-trivial: always - either pos > 0 or text follows the line); a signed-times "
+    "case = one line with a performed note or pedal x one element of the product of its time fields over the signed alphabet"
 )
 ASSUMPTIONS = [
     "field values are given in the canonical types of the line classes (upper-case step, int or None "
@@ -70,6 +75,11 @@ ASSUMPTIONS = [
     "the input string'): the text embedded in a longer string (other lines, comments or white space before it; a line "
     "ending or further lines after a line break behind it) and parsed with pos = its position gives the same object as the "
     "text alone; what may follow the line on the same physical line is not specified and not generated",
+    "tick values are signed: the times of performed notes (onset, offset, adjusted offset) and of pedal lines are relative "
+    "to the reference point of the performance and every version writes them with str()/a fixed number of decimals and reads "
+    "them with int()/float(), so negative times are field values the formats allow (the onsets of a 1.0.0 ptime line are "
+    "not: its text admits digits only); to_v1 keeps them (float times of 0.1.0/0.2.0: nearest integer, either neighbour "
+    "at an exact half)",
     "trusted: Python re/str/float formatting, decimal, fractions, numpy integer arithmetic",
 ]
 CHUNK = 50
@@ -1451,6 +1461,51 @@ def families(tier_x, limit):
     return fam
 
 
+# ------------------------------------------------------------------------------------------------
+# signed times: the times of performed notes and pedals are signed numbers
+#
+# Performed-note times (onset, offset, adjusted offset) and pedal times are ticks relative to the reference
+# point of the performance; every format version writes them with str()/a fixed number of decimals and reads
+# them with int()/float(), so values before the reference point (negative) are values the formats allow.
+# The space takes every family of the line spaces whose line carries such a time and enumerates the full
+# product of its time fields over a signed alphabet (the other fields are cycled).
+
+SIGNED_KINDS = ("note", "pair") + INSERTIONS + ("trill", "ornament", "sustain", "soft")
+NBLOCKS_SIGNED = 8
+
+
+def is_tick_field(kind, name):
+    if kind in ("sustain", "soft"):
+        return name == "time"
+    if kind == "note":
+        return name in ("on", "off", "adj")
+    return name in ("n.on", "n.off", "n.adj")  # not s.on/s.off: the beat times of the score note
+
+
+def signed_alphabet(kind, v, x):
+    if kind not in ("sustain", "soft") and not is_v1(v) and A.note_time_places(v):
+        return A.TIMES2_SIGNED_X if x else A.TIMES2_SIGNED
+    return A.TICKS_SIGNED_X if x else A.TICKS_SIGNED
+
+
+def signed_cases(x):
+    """of every (kind, version) family with a performed-note or pedal time: the full product of its time fields over
+    the signed alphabet; the j-th element of the product takes the (j+i)-th value (cyclic) of the i-th other field"""
+    for name, kind, v, fields, fixed in family_specs(x):
+        if kind not in SIGNED_KINDS:
+            continue
+        alpha = signed_alphabet(kind, v, x)
+        tnames = [n for n, _ in fields if is_tick_field(kind, n)]
+        others = [(n, vals) for n, vals in fields if not is_tick_field(kind, n)]
+        for j, combo in enumerate(itertools.product(alpha, repeat=len(tnames))):
+            flat = dict((n, vals[(j + i) % len(vals)]) for i, (n, vals) in enumerate(others))
+            flat.update(zip(tnames, combo))
+            a = nest(flat)
+            if fixed:
+                a.update(fixed)
+            yield dict(k=kind, v=v, a=a)
+
+
 def duration_cases(x):
     dens = list(range(1, 33)) + [48, 64, 96, 128, 256, 1000, 1024, 1025, 2048]
     nums = list(range(0, 13)) + [100, 1023, 1024, 1025, 2000]
@@ -1689,6 +1744,16 @@ BOUNDS = {
                "that set a MIDI clock of 0), anchors and note ids renumbered to be unique; after every load_matchfile the loaded "
                "lines are compared with the written lines (kind and text, order not compared); the result of load_match is not "
                "compared",
+    "signed-times": "signed times of performed notes and pedals, all versions 0.1.0-1.0.0: every line kind that carries a "
+                    "performed note (note, snote-note pair, insertion, hammer_bounce, trailing_played_note, trill, ornament) or a "
+                    "pedal time (sustain, soft) x the full product of its time fields (onset x offset [x adjusted offset in "
+                    "0.3.0-0.5.0]; pedal time) over a signed alphabet: integer ticks {-10^6, -481, -3, -1, 0, 1, 7}; the "
+                    "two-decimal times of 0.1.0/0.2.0 notes {-5120.0, -200.5, -100.6, -100.4, -3.0, -0.5, -0.01, 0.0, 2.5, 100.4} "
+                    "(on and off the grid, exact halves); the other fields of the line (id, pitch, velocity, score note, anchor, "
+                    "ornament types, pedal value) are cycled through the alphabets of the line spaces; complete line oracle "
+                    "(write, parse, dispatch, rewrite, to_v1 with content and re-parse); thorough scope: ticks + {-2^31-1, -12345, "
+                    "-2, 2^31+1}, two-decimal times + {-99.99, -1/3, -0.005, -1.5, 1.5}, other fields over the extended alphabets. "
+                    "Not generated: negative ptime onsets (the 1.0.0 ptime text admits digits only)",
     "parse-pos": "the `pos` option of the class parsers (line embedded in a longer string): every line class whose "
                  "from_matchline takes the position of the line (0.x: info, meta, snote, note, sustain, soft; 1.0.0: info, "
                  "scoreprop, section, snote, note, stime, ptime, sustain, soft; the composite lines have no such option), all "
@@ -1741,6 +1806,15 @@ def spaces(tier, seed):
         if extra is not None:
             how += "; plus every %d-th case (offset VERIF_SEED mod %d) of the thorough enumeration" % (NBLOCKS, NBLOCKS)
         out.append(Space(name, cases, exhaustive=True, bounds=BOUNDS[name] + " - " + how))
+
+    def signed_time_cases():
+        if thorough:
+            return signed_cases(True)
+        return itertools.chain(signed_cases(False), A.shard(signed_cases(True), seed % NBLOCKS_SIGNED, NBLOCKS_SIGNED))
+
+    out.append(Space("signed-times", signed_time_cases, exhaustive=True, bounds=BOUNDS["signed-times"] + (
+        " - complete" if thorough else " - complete core; plus every %d-th case (offset VERIF_SEED mod %d) of the thorough "
+        "enumeration" % (NBLOCKS_SIGNED, NBLOCKS_SIGNED))))
 
     def hist_cases():
         if thorough:
